@@ -157,6 +157,14 @@ class FloatLiteral(FilterExpressionLiteral[float]):
 
     __slots__ = ()
 
+    def __str__(self) -> str:
+        # `repr(1e16)` is "1e+16", which would be read back as an integer literal.
+        # Keep a fraction so the literal stays a float when it is parsed again.
+        mantissa, e, exponent = repr(self.value).lower().partition("e")
+        if e and "." not in mantissa:
+            mantissa += ".0"
+        return f"{mantissa}{e}{exponent}"
+
 
 class NullLiteral(FilterExpressionLiteral[None]):
     """A null literal."""
